@@ -23,6 +23,7 @@ MANIFEST = dict(
 
 def run(ctx):
     res, broken = vlib.proof_step(ctx, PROJ, "C02", genparams)
+    res, broken = cc.compose_step(ctx, "C02", res, broken)
     hbin, dbin = cc.build_tools()
     n = 2500 if ctx.tier == "quick" else 40000
     brute_n = 400 if ctx.tier == "quick" else 8000
